@@ -5,6 +5,7 @@ import EvyV.Driver.MapDrv
 import EvyV.Driver.BcDrv
 import EvyV.Driver.ExprDrv
 import EvyV.Driver.EvalDrv
+import EvyV.Driver.EnvDrv
 /-
 Line protocol driver (core-only, compiled as `lean_exe evyv`).
 One request per line, one answer per line. See DESIGN.md §3.2.
@@ -52,6 +53,8 @@ def handle (line : String) : String :=
   | "bcverify" :: rest => BcDrv.handleVerify rest
   | "symtab" :: rest => BcDrv.handleSymtab rest
   | "exprvm" :: rest => ExprDrv.handle rest
+  | "envsplit" :: rest => EnvDrv.handleSplit rest
+  | "verifychoice" :: rest => EnvDrv.handleVerify rest
   | _ => "ERR unknown request"
 
 partial def loop (hin hout : IO.FS.Stream) : IO Unit := do
